@@ -213,10 +213,12 @@ def observe_play_meta(mid):
 
 def replay_history(hist):
     import mido
-    mid = mido.MidiFile(type=1, ticks_per_beat=480)
-    # the user keeps the list of tracks it fetched once and edits through it
-    # (only assigning a new list to mid.tracks makes that reference stale)
-    held = mid.tracks
+    # the user hands its own (still empty) list of tracks to the constructor and goes on editing
+    # through it (only assigning a new list to mid.tracks makes that reference stale)
+    held = []
+    mid = mido.MidiFile(type=1, ticks_per_beat=480, tracks=held)
+    if len(hist) % 2:
+        held = mid.tracks              # (every other history fetches the list from the file instead)
     for n, (op, a, b, c, ftype, tpb, tracks, seen) in enumerate(hist):
         try:
             if op == 'add_track':
